@@ -18,11 +18,11 @@ from checks.c06 import _child, _copy_store, _eq, _short, file_class
 E = scen.EXPECTED
 
 
-def SC(name, setup, actions, expected, final, verify, order_rule=None):
+def SC(name, setup, actions, expected, final, verify, order_rule=None, may_fail=()):
     """expected[i] = list of allowed values for participant i; final = {(path, view): [allowed values]};
     verify = [(action, [allowed values])] run afterwards in fresh processes;
     order_rule(ops, results) -> (final overrides, [(participant, allowed values)]) decided from the executed operation order."""
-    return {"name": name, "setup": setup, "actions": actions, "expected": expected, "final": final, "verify": verify, "order_rule": order_rule}
+    return {"name": name, "setup": setup, "actions": actions, "expected": expected, "final": final, "verify": verify, "order_rule": order_rule, "may_fail": tuple(may_fail)}
 
 
 def _marker_index(ops, who, marker):
@@ -91,6 +91,12 @@ def scenarios():
            [(k("/c7/p", "s_text_v2"), [T2])], order_rule=rule_keep_twice("/c7/p", T, T2)),
         SC("load-twice-with-object-cache-vs-rekeep", [k("/c7/p", "s_text")], [scen.act_load_twice("/c7/p", cache=2), k("/c7/p", "s_text_v2")], [[(x, y) for x in (T, T2) for y in (T, T2)], [T2]], {("/c7/p", "data"): [T2]},
            [(k("/c7/p", "s_text_v2"), [T2])], order_rule=rule_load_twice(T, T2)),
+    ] + [
+        # the same keep by two processes on a cold store, the first one suffers one transient I/O failure before its k-th
+        # operation: whatever it does about it, the value the other process returned and committed stays served
+        SC("same-keep-cold-store+transient-failure@%d" % kf, [], [scen.act_with_fault(k("/c7/x", "s_text"), kf), k("/c7/x", "s_text")], [[T], [T]], {("/c7/x", "data"): [T]},
+           [(k("/c7/x", "s_text"), [T]), (ld("/c7/x"), [T])], may_fail=(0,)) for kf in range(1, 34)
+    ] + [
         SC("nested-eval-cold-twice", [], [scen.act_eval_top(), scen.act_eval_top()], [[E["n_top"]], [E["n_top"]]], nested_final, [(scen.act_eval_top(), [E["n_top"]])]),
     ]
 
@@ -134,6 +140,11 @@ def run_one(sc, tmpl, run, workdir, prefix, rep, si):
         if r is None:
             bad("participant %d (%s) left no result" % (i, sc["actions"][i].__name__), "participant-died")
             ok = False
+        elif i in sc.get("may_fail", ()) and (r["out"][0] != "ok" or not any(_eq(r["out"][1], a) for a in sc["expected"][i])):
+            # this participant had a transient I/O failure injected: whatever it makes of it (an exception, or a wrong
+            # answer because os.path.exists() read the failure as "absent") is its own problem - the property is about the
+            # other participants and about what the store serves afterwards
+            rep.count("participants_disturbed_by_injected_fault")
         elif r["out"][0] != "ok":
             bad("participant %d (%s) raised %s(%s)" % (i, sc["actions"][i].__name__, r["out"][1], r["out"][2][:140]), "participant-raised:" + r["out"][1])
             ok = False
@@ -204,12 +215,18 @@ def run(tier, seed):
     rep.rule = (
         "scenarios %r: real processes under a controlled scheduler at file-system-operation granularity (stat, mkdir, open, each half of each write, close, rename, symlink, ...); all schedules with at most "
         "%d preemption(s) are executed (depth-first by re-execution); after each execution fresh processes load and re-evaluate everything. distinct_nontrivial = distinct executed schedules with >= 1 preemption "
-        "whose participants and final state were all correct." % ([s["name"] for s in scs], bound)
+        "whose participants and final state were all correct. The transient-failure scenarios inject one OSError before the k-th operation of the first participant (k = 1..33, one preemption)." % ([s["name"] for s in scs if "transient-failure@" not in s["name"]] + ["same-keep-cold-store+transient-failure@k"], bound)
     )
     # root executions (one per scenario) give the first level of the schedule tree
-    roots = core.fork_map(subtree_job, [(i, [[]], bound, 1) for i in range(len(scs))], timeout=600)
+    def is_fault(sc):
+        return "transient-failure@" in sc["name"]
+
+    # fault scenarios: one preemption in both tiers; the quick tier takes every third failure position (rotating with the seed)
+    active = [i for i, sc in enumerate(scs) if not is_fault(sc) or tier != "quick" or int(sc["name"].split("@")[1]) % 3 == seed % 3]
+    bounds = dict((i, 1 if is_fault(scs[i]) else bound) for i in active)
+    roots_l = core.fork_map(subtree_job, [(i, [[]], bounds[i], 1) for i in active], timeout=600)
     jobs = []
-    for i, r in enumerate(roots):
+    for i, r in zip(active, roots_l):
         if isinstance(r, core.JobFailed):
             rep.inconclusive.append("root execution of %s: %r" % (scs[i]["name"], r))
             continue
@@ -226,7 +243,7 @@ def run(tier, seed):
         for k in range(nparts):
             part = expanded[k::nparts]
             if part:
-                jobs.append((i, part, bound, cap))
+                jobs.append((i, part, bounds[i], cap))
     results = core.fork_map(subtree_job, jobs, timeout=3300)
     orders = 0
     for j, r in zip(jobs, results):
